@@ -151,6 +151,17 @@ var ops = []*Op{
 	{Name: "addasg", Sym: "+=", Kind: KAsg, Level: lvAsg, Sigs: []Sig{{[]Ty{TI}, TI}}},
 	{Name: "catasg", Sym: ".=", Kind: KAsg, Level: lvAsg, Sigs: []Sig{{[]Ty{TS | TI}, TS}}},
 	{Name: "powasg", Sym: "**=", Kind: KAsg, Level: lvAsg, Sigs: []Sig{{[]Ty{TI}, TI}}},
+	{Name: "subasg", Sym: "-=", Kind: KAsg, Level: lvAsg, Sigs: []Sig{{[]Ty{TI}, TI}}},
+	{Name: "mulasg", Sym: "*=", Kind: KAsg, Level: lvAsg, Sigs: []Sig{{[]Ty{TI}, TI}}},
+	{Name: "divasg", Sym: "/=", Kind: KAsg, Level: lvAsg, Sigs: []Sig{{[]Ty{TI}, TI}}},
+	{Name: "modasg", Sym: "%=", Kind: KAsg, Level: lvAsg, Sigs: []Sig{{[]Ty{TI}, TI}}},
+	{Name: "shlasg", Sym: "<<=", Kind: KAsg, Level: lvAsg, Sigs: []Sig{{[]Ty{TI}, TI}}},
+	{Name: "shrasg", Sym: ">>=", Kind: KAsg, Level: lvAsg, Sigs: []Sig{{[]Ty{TI}, TI}}},
+	{Name: "andasg", Sym: "&=", Kind: KAsg, Level: lvAsg, Sigs: []Sig{{[]Ty{TI}, TI}}},
+	{Name: "orasg", Sym: "|=", Kind: KAsg, Level: lvAsg, Sigs: []Sig{{[]Ty{TI}, TI}}},
+	{Name: "xorasg", Sym: "^=", Kind: KAsg, Level: lvAsg, Sigs: []Sig{{[]Ty{TI}, TI}}},
+	// ??= assigns to the nullable int variable $n
+	{Name: "coalasg", Sym: "??=", Kind: KAsg, Level: lvAsg, Sigs: []Sig{{[]Ty{TI}, TI}}},
 }
 
 func opByName(n string) *Op {
